@@ -580,6 +580,55 @@ theorem loop_reaches_every_owner_fixed (hashV : Nat → Nat → Nat) (cap : Nat)
   subst this
   exact hme
 
+/-- **C19 (broadcast mode)**: with a router that is not selective (or none at all) one tick writes
+    the whole batch, as one `DeltaBatch`, to EVERY configured peer — whatever address arithmetic the
+    loop uses (the address map is only consulted for targeted messages) -/
+theorem loop_broadcast_reaches_everyone (a : PeerIdArith) (cap : Nat) (ring : HashRing) (me npeers : Nat)
+    (router : Option Router) (deltas : List Nat) (i : Nat) (hcap : 1 ≤ cap) (hne : deltas ≠ [])
+    (hsel : ∀ rt, router = some rt → rt.selective = false) (hi : i < npeers) :
+    deliveredTo (loopTick a cap ring me npeers (GState.new me router) deltas).1 i = deltas := by
+  have hemp : deltas.isEmpty = false := by
+    cases deltas with
+    | nil => exact absurd rfl hne
+    | cons _ _ => rfl
+  have hq : ((GState.new me router).advanceEpoch.queueDeltas cap ring deltas).queue = [(Msg.broadcast deltas, 1)] := by
+    unfold GState.queueDeltas
+    simp only [hemp, Bool.false_eq_true, if_false, GState.advanceEpoch, GState.new, List.nil_append]
+    have hc : capQ cap [(Msg.broadcast deltas, 0 + 1)] = [(Msg.broadcast deltas, 1)] := by
+      unfold capQ
+      have : ([(Msg.broadcast deltas, 0 + 1)] : List (Msg × Nat)).length - cap = 0 := by simp; omega
+      rw [this]; rfl
+    cases router with
+    | none => simp only [hc]
+    | some rt =>
+      have := hsel rt rfl
+      simp only [this, Bool.false_eq_true, if_false, hc]
+  unfold loopTick GState.drain
+  simp only [hq, dispatch, List.flatMap_cons, List.flatMap_nil, List.append_nil, deliveredTo]
+  have : ((List.range npeers).map fun j => (j, (Msg.broadcast deltas, 1))).filter (fun e => e.1 == i)
+      = [(i, (Msg.broadcast deltas, 1))] := by
+    rw [List.filter_map]
+    have hf : (List.range npeers).filter ((fun e : Nat × Msg × Nat => e.1 == i) ∘ fun j => (j, (Msg.broadcast deltas, 1))) = [i] := by
+      have : ((fun e : Nat × Msg × Nat => e.1 == i) ∘ fun j => (j, (Msg.broadcast deltas, 1))) = fun j => j == i := rfl
+      rw [this]
+      clear this
+      induction npeers with
+      | zero => omega
+      | succ n ih =>
+        rw [List.range_succ, List.filter_append]
+        by_cases hin : i < n
+        · rw [ih hin]
+          have : ([n].filter fun j => j == i) = [] := by simp; omega
+          rw [this]; rfl
+        · have hin' : i = n := by omega
+          subst hin'
+          have h1 : ((List.range i).filter fun j => j == i) = [] := by
+            rw [List.filter_eq_nil_iff]; intro x hx; rw [List.mem_range] at hx; simp; omega
+          rw [h1]; simp
+    rw [hf]; rfl
+  rw [this]
+  simp
+
 /-- **Known finding C19:gossip-loop:peer-map:off-by-one.**  The loops of
     `production/gossip_manager.rs` still build their address map with the arithmetic that fix
     faccb9f corrected in `GossipRouter::from_config`.  Replica 1 of a 3-node cluster (rf 3, peers
